@@ -21,7 +21,7 @@
 (* nutils.function (MaskedBasis, PrunedBasis, _DiscontinuousPartitionBasis,*)
 (* the ravelled tensor product of StructuredBasis, util.merge_index_map).  *)
 (***************************************************************************)
-EXTENDS Naturals, Integers, Sequences, FiniteSets
+EXTENDS Naturals, Integers, Sequences, FiniteSets, TLC
 
 CONSTANT Mutant      \* "none", or the name of a deliberately wrong variant of one operator (shows the invariants bite)
 
@@ -29,13 +29,13 @@ BSet(s) == {s[i] : i \in 1..Len(s)}
 BMin(S) == CHOOSE x \in S : \A y \in S : x <= y
 BMax(S) == CHOOSE x \in S : \A y \in S : x >= y
 BRank(S, x) == Cardinality({y \in S : y < x})
-BSorted(S) == [i \in 1..Cardinality(S) |-> CHOOSE x \in S : BRank(S, x) = i-1]
+BSorted(S) == TLCEval([i \in 1..Cardinality(S) |-> CHOOSE x \in S : BRank(S, x) = i-1])   \* TLCEval: tabulate once
 
 BElems(b) == 0..b.ne-1
 BDofs(b) == 0..b.nd-1
 
 (* get_support computed from get_dofs, Basis._computed_support *)
-BSupp(ne, nd, ed) == [d \in 1..nd |-> {e \in 0..ne-1 : (d-1) \in BSet(ed[e+1])}]
+BSupp(ne, nd, ed) == TLCEval([d \in 1..nd |-> {e \in 0..ne-1 : (d-1) \in BSet(ed[e+1])}])
 
 BWellFormed(b) ==
     /\ b.ne \in Nat /\ b.nd \in Nat
@@ -55,17 +55,17 @@ BNoDeadDof(b) == \A d \in 1..b.nd : b.su[d] # {}
 (* the same thing as a basis over elements only (no geometry) *)
 BBlocks(ne, k) ==   \* ne elements with k private functions each (DiscontBasis with uniform references)
     [ne |-> ne, nd |-> ne*k,
-     ed |-> [e \in 1..ne |-> [i \in 1..k |-> (e-1)*k + i-1]],
-     su |-> [d \in 1..ne*k |-> {(d-1) \div k}]]
+     ed |-> TLCEval([e \in 1..ne |-> [i \in 1..k |-> (e-1)*k + i-1]]),
+     su |-> TLCEval([d \in 1..ne*k |-> {(d-1) \div k}])]
 
 ---------------------------------------------------------------------------
 (* MaskedBasis(parent, K): the order preserving subset K of the functions *)
 MaskOp(b, K) ==
     LET ks == BSorted(K) IN
     [ne |-> b.ne, nd |-> Cardinality(K),
-     ed |-> [e \in 1..b.ne |-> LET kept == SelectSeq(b.ed[e], LAMBDA d : d \in K)
-                               IN [i \in 1..Len(kept) |-> BRank(K, kept[i])]],
-     su |-> [k \in 1..Cardinality(K) |-> IF Mutant = "mask-supp" THEN b.su[k] ELSE b.su[ks[k]+1]],
+     ed |-> TLCEval([e \in 1..b.ne |-> LET kept == SelectSeq(b.ed[e], LAMBDA d : d \in K)
+                                       IN [i \in 1..Len(kept) |-> BRank(K, kept[i])]]),
+     su |-> TLCEval([k \in 1..Cardinality(K) |-> IF Mutant = "mask-supp" THEN b.su[k] ELSE b.su[ks[k]+1]]),
      mid |-> b.mid, ifc |-> b.ifc,
      un |-> {e \in b.un : BSet(b.ed[e+1]) \subseteq K}]
 
@@ -75,9 +75,9 @@ PruneOp(b, E) ==
         D == UNION {BSet(b.ed[e+1]) : e \in E}
         ds == BSorted(D) IN
     [ne |-> Cardinality(E), nd |-> Cardinality(D),
-     ed |-> [k \in 1..Cardinality(E) |-> [i \in 1..Len(b.ed[es[k]+1]) |-> BRank(D, b.ed[es[k]+1][i])]],
-     su |-> [j \in 1..Cardinality(D) |-> {BRank(E, e) : e \in b.su[ds[j]+1] \cap E}],
-     mid |-> [k \in 1..Cardinality(E) |-> b.mid[es[k]+1]],
+     ed |-> TLCEval([k \in 1..Cardinality(E) |-> [i \in 1..Len(b.ed[es[k]+1]) |-> BRank(D, b.ed[es[k]+1][i])]]),
+     su |-> TLCEval([j \in 1..Cardinality(D) |-> {BRank(E, e) : e \in b.su[ds[j]+1] \cap E}]),
+     mid |-> TLCEval([k \in 1..Cardinality(E) |-> b.mid[es[k]+1]]),
      ifc |-> {[key |-> i.key, a |-> BRank(E, i.a), b |-> BRank(E, i.b), c |-> i.c] : i \in {j \in b.ifc : j.a \in E /\ j.b \in E}},
      un |-> {BRank(E, e) : e \in b.un \cap E}]
 
@@ -87,7 +87,7 @@ BPairLess(x, y) == x[1] < y[1] \/ (x[1] = y[1] /\ x[2] < y[2])
 PartOp(b, P) ==
     LET pairs == UNION {{<<P[e+1], b.ed[e+1][i]>> : i \in 1..Len(b.ed[e+1])} : e \in BElems(b)}
         rank(x) == Cardinality({y \in pairs : BPairLess(y, x)})
-        ed == [e \in 1..b.ne |-> [i \in 1..Len(b.ed[e]) |-> rank(<<P[e], b.ed[e][i]>>)]]
+        ed == TLCEval([e \in 1..b.ne |-> [i \in 1..Len(b.ed[e]) |-> rank(<<P[e], b.ed[e][i]>>)]])
         nd == Cardinality(pairs) IN
     [ne |-> b.ne, nd |-> nd, ed |-> ed, su |-> BSupp(b.ne, nd, ed), mid |-> b.mid,
      ifc |-> {[key |-> i.key, a |-> i.a, b |-> i.b, c |-> IF P[i.a+1] = P[i.b+1] THEN i.c ELSE -1] : i \in b.ifc},
@@ -96,13 +96,13 @@ PartOp(b, P) ==
 (* ravel(basis1[:,newaxis] * basis2): StructuredBasis in two or more dimensions, Topology.basis on products *)
 TensorOp(b1, b2) ==
     [ne |-> b1.ne * b2.ne, nd |-> b1.nd * b2.nd,
-     ed |-> [k \in 1..b1.ne*b2.ne |->
+     ed |-> TLCEval([k \in 1..b1.ne*b2.ne |->
                LET s1 == b1.ed[((k-1) \div b2.ne) + 1]
                    s2 == b2.ed[((k-1) % b2.ne) + 1]
                    L2 == Len(s2)
-               IN [i \in 1..Len(s1)*L2 |-> s1[((i-1) \div L2) + 1] * b2.nd + s2[((i-1) % L2) + 1]]],
-     su |-> [k \in 1..b1.nd*b2.nd |-> {e1*b2.ne + e2 : e1 \in b1.su[((k-1) \div b2.nd) + 1], e2 \in b2.su[((k-1) % b2.nd) + 1]}],
-     mid |-> [k \in 1..b1.ne*b2.ne |-> b1.mid[((k-1) \div b2.ne) + 1] \o b2.mid[((k-1) % b2.ne) + 1]],
+               IN [i \in 1..Len(s1)*L2 |-> s1[((i-1) \div L2) + 1] * b2.nd + s2[((i-1) % L2) + 1]]]),
+     su |-> TLCEval([k \in 1..b1.nd*b2.nd |-> {e1*b2.ne + e2 : e1 \in b1.su[((k-1) \div b2.nd) + 1], e2 \in b2.su[((k-1) % b2.nd) + 1]}]),
+     mid |-> TLCEval([k \in 1..b1.ne*b2.ne |-> b1.mid[((k-1) \div b2.ne) + 1] \o b2.mid[((k-1) % b2.ne) + 1]]),
      ifc |-> {[key |-> i.key \o b2.mid[e2+1], a |-> i.a*b2.ne + e2, b |-> i.b*b2.ne + e2, c |-> i.c] : i \in b1.ifc, e2 \in BElems(b2)}
              \cup {[key |-> b1.mid[e1+1] \o i.key, a |-> e1*b2.ne + i.a, b |-> e1*b2.ne + i.b, c |-> i.c] : e1 \in BElems(b1), i \in b2.ifc},
      un |-> {e1*b2.ne + e2 : e1 \in b1.un, e2 \in b2.un}]
@@ -112,18 +112,18 @@ TensorOp(b1, b2) ==
 RECURSIVE BClose(_, _)
 BClose(sets, C) == LET N == C \cup UNION {s \in sets : s \cap C # {}} IN IF N = C THEN C ELSE BClose(sets, N)
 BClassOf(sets, i) == BClose(sets, {i})
-BMergeRep(nin, sets) == [i \in 1..nin |-> BMin(BClassOf(sets, i-1))]     \* condense=False: the smallest member
+BMergeRep(nin, sets) == TLCEval([i \in 1..nin |-> BMin(BClassOf(sets, i-1))])     \* condense=False: the smallest member
 BMergeMap(nin, sets) ==                                                  \* condense=True: classes numbered by smallest member
     LET rep == BMergeRep(nin, sets)
         reps == {rep[i] : i \in 1..nin} IN
-    [i \in 1..nin |-> BRank(reps, rep[i])]
+    TLCEval([i \in 1..nin |-> BRank(reps, rep[i])])
 BMergeCount(nin, sets) == Cardinality({BMin(BClassOf(sets, i)) : i \in 0..nin-1})
 
 (* identify dofs of a basis: the C0 gluing of _basis_c0_structured and MultipatchTopology.basis_spline *)
 GlueOp(b, sets) ==
     LET m == BMergeMap(b.nd, sets)
         nd == BMergeCount(b.nd, sets)
-        ed == [e \in 1..b.ne |-> [i \in 1..Len(b.ed[e]) |-> m[b.ed[e][i]+1]]] IN
+        ed == TLCEval([e \in 1..b.ne |-> [i \in 1..Len(b.ed[e]) |-> m[b.ed[e][i]+1]]]) IN
     [ne |-> b.ne, nd |-> nd, ed |-> ed, su |-> BSupp(b.ne, nd, ed)]
 
 =============================================================================
